@@ -35,7 +35,7 @@ var hdrPool = [][2]string{
 var codePool = []int{200, 200, 200, 201, 202, 204, 206, 301, 302, 304, 400, 404, 418, 500, 503, 299, 599, 999, 203, 307, 103, 100, 102}
 
 var exclCTPool = [][]string{nil, nil, nil, {"image/jpeg", "application/zip"}, {"text/csv"}, {"JSON"}, {"text/"}, {"application/x-custom", "image/"}}
-var pathPool = []string{"/p", "/p", "/p", "/metrics", "/a.png", "/x.gz", "/data.json", "/p.PNG", "/deep/path/file.txt"}
+var pathPool = []string{"/p", "/p", "/p", "/p", "/p", "/p", "/metrics", "/a.png", "/x.gz", "/data.json", "/p.PNG", "/deep/path/file.txt"}
 
 var aeTokens = []string{"gzip", "br", "gzip", "br", "deflate", "identity", "*", "x-gzip", "brotli", "GZIP", "Br", "gzip2", "compress", "zstd", "bro", "gzi", "br-x", "", "abr", "gzipp"}
 var aeQ = []string{"", "", "", ";q=0", ";q=0.0", ";q=0.000", ";q=1", ";q=1.0", ";q=0.5", ";q=0.001", ";q=0.9", ";q=0.25", "; q=0.8", " ;q=0.3", ";Q=0.5",
@@ -137,7 +137,7 @@ func genCase(r *hx.Rand, tier string) *caseT {
 	case 0, 1, 2, 3:
 		k.Opt.MinSize = 0
 	case 4, 5, 6:
-		k.Opt.MinSize = r.Range(1, 64)
+		k.Opt.MinSize = r.Range(1, 40)
 	case 7:
 		k.Opt.MinSize = hx.Pick(r, []int{1, 2, 10, 100, 511, 512, 513})
 	default:
@@ -147,8 +147,8 @@ func genCase(r *hx.Rand, tier string) *caseT {
 			k.Opt.MinSize = r.Range(1, 200)
 		}
 	}
-	k.Opt.NoGzip = r.Chance(1, 7)
-	k.Opt.NoBr = r.Chance(1, 4)
+	k.Opt.NoGzip = r.Chance(1, 10)
+	k.Opt.NoBr = r.Chance(1, 5)
 	if r.Chance(1, 3) {
 		k.Opt.GzipLevel = ip(hx.Pick(r, []int{-1, 1, 6, 9, 0, -2}))
 	}
@@ -164,7 +164,7 @@ func genCase(r *hx.Rand, tier string) *caseT {
 	}
 	k.Path = hx.Pick(r, pathPool)
 	k.AE = genAE(r, simple)
-	if r.Chance(1, 2) { // make sure the middleware is usually active
+	if r.Chance(3, 5) { // make sure the middleware is usually active
 		k.AE = sp(hx.Pick(r, []string{"gzip", "br", "gzip, br", "br;q=0.9, gzip", "gzip;q=0.5, br;q=0.4", "deflate, gzip;q=1.0, *;q=0.5"}))
 	}
 	thr := k.Opt.MinSize
